@@ -168,9 +168,17 @@ func (e *c16Env) marks() map[*types.Var]constant.Value {
 	if f == nil {
 		return e.markVals
 	}
+	// the connections found registered, and the parameters they are handed to (b.supersede(old))
+	reg := map[types.Object]bool{}
+	for _, g := range reach(f, 3) {
+		r, _, _ := e.handleConnRegVars(g)
+		for o := range r {
+			reg[o] = true
+		}
+	}
+	e.bindParams(f, reg, 3)
 	for _, g := range reach(f, 3) {
 		g := g
-		reg, _, _ := e.handleConnRegVars(g)
 		if len(reg) == 0 {
 			continue
 		}
@@ -393,6 +401,7 @@ func c16MarkWritten(e *c16Env) {
 			return true
 		})
 	}
+	e.bindParams(f, reg, 3)
 	if !c.RequireCount("R-C16-3", "stores into Broker.clients in handleConn", len(stores), 1) {
 		return
 	}
@@ -455,6 +464,14 @@ func c16MarkWritten(e *c16Env) {
 					if e.isClientsLookup(g, x) {
 						return true
 					}
+					if fld, _ := e.clientFieldOf(g, x); fld != nil && e.markRelied[fld] {
+						return true
+					}
+				}
+			}
+			if call, ok := n.(*ast.CallExpr); ok && len(call.Args) > 0 {
+				if fld, _ := e.clientFieldOf(g, call.Args[0]); fld != nil && e.markRelied[fld] {
+					return true
 				}
 			}
 			return false
